@@ -90,7 +90,7 @@ Lemma abspath_abs_l : forall cwd p size junk m, ok m size -> nonzero p -> isabs 
   (fst (abspath cwd p size junk m) = 0 <-> zlen p < size /\ 1 < size) /\
   (fst (abspath cwd p size junk m) = 0 -> cstr (cells (snd (abspath cwd p size junk m))) = p).
 Proof.
-  intros cwd p size junk m Hok Hnz Ha. unfold abspath. rewrite Ha.
+  intros cwd p size junk m Hok Hnz Ha. unfold abspath, abspath_with. rewrite Ha.
   pose proof (zlen_nonneg p) as Hp0.
   destruct (size <=? 1) eqn:S1; breflect.
   { cbn [fst]. unfold EINVAL. split; [split; [lia|intros [_ X]; lia]|lia]. }
